@@ -136,7 +136,6 @@ func escPrint(f []string) string {
 
 func init() {
 	implOps["htmlesc"] = escOp1(func(s string) []byte { return soyhtml.VerifHTMLEscape(s) })
-	implOps["gohtmlesc"] = escOp1(func(s string) []byte { return []byte(template.HTMLEscapeString(s)) })
 	implOps["jsesc"] = escOp1(func(s string) []byte { return []byte(template.JSEscapeString(s)) })
 	implOps["jsesc2"] = escOp1(func(s string) []byte { return []byte(soyhtml.VerifJSEscape(s)) })
 	// jsrt2: the proposed escaper followed by the oracle's independent evaluator
@@ -174,7 +173,7 @@ func init() {
 
 	register(&Prop{
 		ID: "C03esc",
-		Rule: "htmlesc/gohtmlesc(s), dir(escapeHtml|changeNewlineToBr|insertWordBreaks n=1..6, s), print(ns attr, template attr, chain of <=2 directives, s) " +
+		Rule: "htmlesc(s), dir(escapeHtml|changeNewlineToBr|insertWordBreaks n=1..6, s), print(ns attr, template attr, chain of <=2 directives, s) " +
 			"over: all single bytes, all pairs/triples of & < > \" ', multi-byte and astral runes, invalid UTF-8, NUL, U+2028/9, entity-like and tag-like text, " +
 			"line breaks, long runs, seeded random strings; non-trivial = s contains one of the five specials (or a line break / NUL); distinct by request",
 		Gen:    genC03esc,
@@ -348,7 +347,6 @@ func genC03esc(g *G) {
 	for _, s := range base {
 		nt := escHasSpecial(s)
 		g.Add(escCase("htmlesc", s, nt))
-		g.Add(escCase("gohtmlesc", s, nt))
 		g.Add(escCase("dir", s, nt, "escapeHtml"))
 		g.Add(escCase("dir", s, nt, "changeNewlineToBr"))
 		for n := 1; n <= 6; n++ {
@@ -385,7 +383,7 @@ func genC03esc(g *G) {
 		case 0:
 			g.Add(escCase("htmlesc", s, nt))
 		case 1:
-			g.Add(escCase("gohtmlesc", s, nt))
+			g.Add(escCase("dir", s, nt, "escapeHtml"))
 		case 2:
 			g.Add(escCase("dir", s, nt, "changeNewlineToBr"))
 		case 3:
@@ -750,9 +748,9 @@ func escOracle(c *Case, impl string) *Viol {
 		}
 		switch name {
 		case "escapeHtml":
-			return htmlCheck("dir:escapeHtml", v, "", escNulToFFFD(v))
+			return htmlCheck("dir:escapeHtml", v, "", v)
 		case "changeNewlineToBr":
-			return htmlCheck("dir:changeNewlineToBr", v, "<br>", escNulToFFFD(escStripNewlines(v)))
+			return htmlCheck("dir:changeNewlineToBr", v, "<br>", escStripNewlines(v))
 		case "insertWordBreaks":
 			if len(args) != 1 {
 				return nil
@@ -764,7 +762,7 @@ func escOracle(c *Case, impl string) *Viol {
 			if !isOK {
 				return escViol("dir:insertWordBreaks:fail", "insertWordBreaks failed on an in-range call: "+impl)
 			}
-			return htmlCheck("dir:insertWordBreaks", v, "<wbr>", escNulToFFFD(v))
+			return htmlCheck("dir:insertWordBreaks", v, "<wbr>", v)
 		case "escapeUri":
 			dec, why := escPercentDecode(out)
 			if why != "" {
